@@ -705,6 +705,8 @@ func canon(v []byte) []byte {
 type pair struct{ k, v []byte }
 
 type world struct {
+	curRes                *core.Result // the result and step of the operation being executed (for checks made inside helpers)
+	curStep               int
 	kind, max, nsh, delay int
 	alpha                 [][]byte
 	root                  string
@@ -806,10 +808,27 @@ func (w *world) flushAll() {
 
 func (w *world) rangePairs() []pair {
 	var out []pair
+	var kk, kv core.Keeper
 	w.p.RangeKeys(func(k, v []byte) bool {
-		out = append(out, pair{append([]byte{}, k...), append([]byte{}, v...)})
+		kk.See(k)
+		kv.See(v)
+		ck, cv := append([]byte{}, k...), append([]byte{}, v...)
+		out = append(out, pair{ck, cv})
+		// a handler that derives another key from the one it was given (append) must not thereby change the value it was given along
+		if w.levelDB && w.curRes != nil {
+			_ = append(k, 0xE1, 0xE2, 0xE3, 0xE4, 0xE5, 0xE6, 0xE7, 0xE8)
+			if !bytes.Equal(v, cv) {
+				failAll(w.curRes, w.props("C09"), w.curStep, "RangeKeys: appending to the key %x handed to the handler changed the value handed along with it from %x to %x", ck, cv, v)
+			}
+		}
 		return true
 	})
+	// the handler keeps the slices it was given: a later visit must not overwrite them (keys are then used as scratch; values are
+	// left alone: memorydb hands out the stored slice itself, which the unchanged tree does and the property does not forbid)
+	if w.curRes != nil {
+		kk.Done(w.curRes, "C09", w.curStep, "RangeKeys (keys)", true)
+		kv.Done(w.curRes, "C09", w.curStep, "RangeKeys (values)", false)
+	}
 	sort.Slice(out, func(i, j int) bool {
 		if c := bytes.Compare(out[i].k, out[j].k); c != 0 {
 			return c < 0
@@ -1038,6 +1057,7 @@ func runOnce(h *core.History, scratch string) (*core.Result, bool) {
 
 	for i, op := range h.Ops {
 		res.Scribble() // the key buffers handed to the previous call are reused by their caller
+		w.curRes, w.curStep = res, i
 		a := op.Parsed()
 		var key []byte
 		if len(a) > 0 {
